@@ -730,7 +730,15 @@ type rangeIter struct {
 
 func (x *Exec) rangeInit(st *State, fr *Frame, in *ssa.Range) *Val {
 	v := x.val(st, fr, in.X)
-	return &Val{K: kTuple, F: []*Val{v}, Typ: in.X.Type()}
+	it := &Val{K: kTuple, F: []*Val{v}, Typ: in.X.Type()}
+	if v.K == kScalar && v.T.sort == SStr {
+		// string iterator: a heap cell holding the current byte position
+		ref := x.alloc(st)
+		l := &Loc{Base: ref, Root: "F|$striter", Path: ".pos", T: types.Typ[types.Int]}
+		x.store(st, l, scalar(IntLit(0), types.Typ[types.Int]))
+		it.F = append(it.F, &Val{K: kPtr, L: l})
+	}
+	return it
 }
 
 func (x *Exec) rangeNext(st *State, fr *Frame, in *ssa.Next) *Val {
@@ -738,12 +746,23 @@ func (x *Exec) rangeNext(st *State, fr *Frame, in *ssa.Next) *Val {
 	src := it.F[0]
 	tt := in.Type().(*types.Tuple)
 	if in.IsString {
-		x.note("range over string: abstracted (nondeterministic position)")
-		ok := x.freshConst(st, "rng_ok", SBool)
-		idx := x.freshTyped(st, "rng_i", tt.At(1).Type())
-		r := x.freshTyped(st, "rng_r", tt.At(2).Type())
-		x.assume(st, Implies(ok, And(Le(IntLit(0), idx.T), Lt(idx.T, StrLen(src.T)))), "range-string")
-		return &Val{K: kTuple, F: []*Val{scalar(ok, types.Typ[types.Bool]), idx, r}, Typ: tt}
+		// exact for ASCII bytes (rune == byte, advance by one); a byte >= 0x80 starts a multi-byte
+		// sequence: the rune is left unconstrained (>= 0x80) and the position advances by 1..4
+		l := it.F[1].L
+		pos := x.load(st, l, nil).T
+		n := StrLen(src.T)
+		ok := x.bind(st, Lt(pos, n), "rng_ok")
+		code := x.bind(st, StrAtCode(src.T, pos), "rng_c")
+		ascii := Lt(code, IntLit(128))
+		wild := x.freshTyped(st, "rng_r", types.Typ[types.Int32])
+		x.assume(st, Ge(wild.T, IntLit(128)), "non-ascii rune")
+		adv := x.freshConst(st, "rng_adv", SInt)
+		x.assume(st, And(Ge(adv, IntLit(1)), Le(adv, IntLit(4))), "rune width")
+		r := x.bind(st, Ite(ascii, code, wild.T), "rng_rune")
+		next := x.bind(st, Ite(ok, Add(pos, Ite(ascii, IntLit(1), adv)), pos), "rng_next")
+		x.store(st, l, scalar(next, types.Typ[types.Int]))
+		x.note("range over string: exact for ASCII bytes, runes >= 0x80 over-approximated")
+		return &Val{K: kTuple, F: []*Val{scalar(ok, types.Typ[types.Bool]), scalar(pos, tt.At(1).Type()), scalar(r, tt.At(2).Type())}, Typ: tt}
 	}
 	mt := it.Typ.Underlying().(*types.Map)
 	ok := x.freshConst(st, "rng_ok", SBool)
